@@ -110,6 +110,13 @@ class DenseBoolM:
         self.inserts = []      # (guard, value, flag)
 
 
+class DenseViewM:
+    """arr[start:stop] of a dense boolean array (a view: writes go to the base).  start / stop are non-negative (the code in scope
+    keeps index bounds there); numpy clamps them to the array size."""
+    def __init__(self, base, start, stop):
+        self.base, self.start, self.stop = base, start, stop
+
+
 class SetM:
     def __init__(self):
         self.inserts = []
@@ -274,6 +281,9 @@ class Models:
         return UNSET
 
     def binop(self, op, a, b):
+        if isinstance(a, IndexArrayM) and isinstance(op, (ast.Add, ast.Sub)) and isinstance(b, (int, SInt, CVal, np.integer)):
+            # element-wise shift by a scalar: order and distinctness are kept (no wrap-around: index values stay far below 2^63)
+            return IndexArrayM([(g, self.ip.binop(op, v, b)) for g, v in a.inserts], a.dtype, a.is_sorted, a.unique, a.fits)
         if isinstance(a, SymSeq) or isinstance(b, SymSeq):
             if isinstance(op, ast.Add):
                 pa = self.as_plain(a)
@@ -502,12 +512,30 @@ class Models:
                 ip.raise_exc('KeyError')
                 return UNSET
             return obj[key]
+        if isinstance(obj, DenseBoolM) and isinstance(idx, (I.SymSlice, slice)):
+            if idx.step not in (None, 1):
+                raise CannotEncode('strided slice of a boolean array')
+            if idx.start is None and idx.stop is None:
+                return obj
+            return DenseViewM(obj, 0 if idx.start is None else idx.start, obj.size if idx.stop is None else idx.stop)
         if isinstance(obj, DenseBoolM):
             return self.dense_member(obj, idx)
         raise CannotEncode(f'subscript of {type(obj).__name__}')
 
     def setitem(self, obj, idx, value):
         ip = self.ip
+        if isinstance(obj, DenseViewM):
+            if not (isinstance(idx, (I.SymSlice, slice)) and all(x is None for x in (idx.start, idx.stop, idx.step))) or ip.truth(value) is not False:
+                raise CannotEncode('store into a view of a boolean array other than view[:] = False')
+            g = ip.active()
+            new = []
+            for gi, v, f in obj.base.inserts:
+                inside = land(ip.truth(ip.compare(ast.LtE(), obj.start, v)), ip.truth(ip.compare(ast.Lt(), v, obj.stop)))
+                gi2 = simp_bool(land(gi, lnot(land(g, inside))))
+                if gi2 is not False:
+                    new.append((gi2, v, f))
+            obj.base.inserts = new
+            return
         if isinstance(obj, DenseBoolM) and isinstance(idx, (I.SymSlice, slice)):
             # arr[:] = False: everything inserted so far is present afterwards only on paths that do not get here
             if not all(x is None for x in (idx.start, idx.stop, idx.step)):
@@ -658,7 +686,9 @@ class Models:
                 if m is None:
                     raise CannotEncode('len() of instance without __len__')
                 return ip.call_function(m, [], {}, self_obj=x)
-            if isinstance(x, (DenseBoolM, SetM, IndexArrayM, I.GuardedList)):
+            if isinstance(x, DenseBoolM):
+                return x.size
+            if isinstance(x, (SetM, IndexArrayM, I.GuardedList, DenseViewM)):
                 raise CannotEncode('len of modelled set')
             return len(x)
         if fn is range:
@@ -841,6 +871,18 @@ class Models:
                 if isinstance(x, DenseBoolM):
                     return IndexArrayM([(land(g, f), v) for g, v, f in x.inserts if f is not False] if all(f is True or is_sym(f) for _, _, f in x.inserts) else self._dense_cleared(x),
                                        np.intp, True, True)
+                if isinstance(x, DenseViewM):
+                    if not all(f is True or is_sym(f) for _, _, f in x.base.inserts):
+                        self._dense_cleared(x.base)
+                    ins = []
+                    for g, v, f in x.base.inserts:
+                        if f is False:
+                            continue
+                        inside = land(ip.truth(ip.compare(ast.LtE(), x.start, v)), ip.truth(ip.compare(ast.Lt(), v, x.stop)))
+                        gi = simp_bool(land(g, f, inside))
+                        if gi is not False:
+                            ins.append((gi, ip.binop(ast.Sub(), v, x.start)))
+                    return IndexArrayM(ins, np.intp, True, True)
                 raise CannotEncode('flatnonzero')
             if a == 'fromiter':
                 x = args[0]
